@@ -111,7 +111,7 @@ fn run(cfg: &RunCfg) -> Report {
                 let mut k = 0usize;
                 for_each_input(cfg, "c11", &plan, &mut |x, rng| {
                     k = (k + 1) % 3;
-                    let rblen = 64 + rng.below(237) as usize;
+                    let rblen = if rng.chance(1, 4) { 64 } else { 64 + rng.below(237) as usize };
                     let ps = rng.next();
                     check(ctxs[k], &cfgs[k], x, rblen, ps, &mut rep);
                 });
